@@ -150,6 +150,10 @@ def main():
                         offs = bound if not quick else bound[::max(1, len(bound) // 12)]
                     for o in offs:
                         cases.append(("split", name, "%s two members split at %d" % (codec, o), ("split", codec, (o,)), bss[0], None, True))
+                    # empty members (a split at offset 0 / at the end / twice at the same offset): at the very start, on an entry boundary, inside a header
+                    for offs3 in ((0,), (len(data),), (0, 0), (512, 512), (1024, 1024), (700, 700), (len(data) - 1024, len(data) - 1024), (0, 512, 512, len(data))):
+                        if all(0 <= o <= len(data) for o in offs3):
+                            cases.append(("split", name, "%s members split at %s (empty members)" % (codec, ",".join(map(str, offs3))), ("split", codec, offs3), bss[0], None, True))
                     # three members
                     cases.append(("split", name, "%s three members (700,1,rest)" % codec, ("split", codec, (700, 701)), bss[0], None, True))
                     # pipe chunkings
